@@ -118,7 +118,12 @@ func (s *Store) Load(ctx context.Context, name string) ([]byte, error) {
 }
 
 func (s *Store) NodeURLPrefix() string { return s.prefix }
-func (s *Store) Has(name string) bool  { s.mu.Lock(); defer s.mu.Unlock(); _, ok := s.m[name]; return ok }
+func (s *Store) Has(name string) bool {
+	s.mu.Lock()
+	defer s.mu.Unlock()
+	_, ok := s.m[name]
+	return ok
+}
 func (s *Store) Get(name string) []byte {
 	s.mu.Lock()
 	defer s.mu.Unlock()
@@ -179,18 +184,18 @@ func (w *World) Counts() map[string]int { return w.counts }
 
 // map accessors: histories for the concurrency engine run operations of different trees from
 // different goroutines, so the harness's own bookkeeping is locked
-func (w *World) getTree(i int) *treeT       { w.mm.Lock(); defer w.mm.Unlock(); return w.Trees[i] }
-func (w *World) setTree(i int, t *treeT)    { w.mm.Lock(); w.Trees[i] = t; w.mm.Unlock() }
-func (w *World) getRoot(i int) *mast.Root   { w.mm.Lock(); defer w.mm.Unlock(); return w.Roots[i] }
-func (w *World) setRoot(i int, r *mast.Root) { w.mm.Lock(); w.Roots[i] = r; w.mm.Unlock() }
-func (w *World) getCur(i int) *mast.Cursor  { w.mm.Lock(); defer w.mm.Unlock(); return w.Curs[i] }
+func (w *World) getTree(i int) *treeT         { w.mm.Lock(); defer w.mm.Unlock(); return w.Trees[i] }
+func (w *World) setTree(i int, t *treeT)      { w.mm.Lock(); w.Trees[i] = t; w.mm.Unlock() }
+func (w *World) getRoot(i int) *mast.Root     { w.mm.Lock(); defer w.mm.Unlock(); return w.Roots[i] }
+func (w *World) setRoot(i int, r *mast.Root)  { w.mm.Lock(); w.Roots[i] = r; w.mm.Unlock() }
+func (w *World) getCur(i int) *mast.Cursor    { w.mm.Lock(); defer w.mm.Unlock(); return w.Curs[i] }
 func (w *World) setCur(i int, c *mast.Cursor) { w.mm.Lock(); w.Curs[i] = c; w.mm.Unlock() }
-func (w *World) Store(i int) *Store      { return w.store(i) }
-func (w *World) GetRoot(i int) *mast.Root { return w.getRoot(i) }
-func (w *World) GetTree(i int) *treeT    { return w.getTree(i) }
-func (t *treeT) StoreID() int            { return t.store }
-func (t *treeT) Kind() int               { return t.kind }
-func (w *World) ResetCounts()           { w.counts = map[string]int{}; w.Fired = false; w.FaultSite = "" }
+func (w *World) Store(i int) *Store           { return w.store(i) }
+func (w *World) GetRoot(i int) *mast.Root     { return w.getRoot(i) }
+func (w *World) GetTree(i int) *treeT         { return w.getTree(i) }
+func (t *treeT) StoreID() int                 { return t.store }
+func (t *treeT) Kind() int                    { return t.kind }
+func (w *World) ResetCounts()                 { w.counts = map[string]int{}; w.Fired = false; w.FaultSite = "" }
 
 func (w *World) hitSeq(kind string) bool {
 	w.mu.Lock()
